@@ -20,12 +20,20 @@ func init() {
 }
 
 // ssoChecks is the reference validator for C03.
+
+// the SP's configured assertion consumer URL and the IdP's entity ID for the case at hand (workers run cases sequentially)
+var c03ACS, c03Iss = ACS, IdPIss
+
+var c03OddACS = []string{ACS + "?tenants=blue,green", ACS + ";v=1", "https://sp.example.test/saml/*", ACS + "#frag", "https://SP.example.test/saml/acs", ACS + "/",
+	"https://sp.example.test/saml/acs%2Fx", "https://sp.example.test/saml/a b", ACS + "|https://sp.example.test/saml/acs2", "https://sp.example.test/saml/acs https://sp.example.test/saml/acs2"}
+var c03OddIss = []string{IdPIss + ",https://idp2.example.test/metadata", "urn:idp:*", IdPIss + "#x", "https://IdP.example.test/Metadata", "urn:idp:a;urn:idp:b", "https://idp.example.test/meta%64ata", "idp one"}
+
 func ssoChecks(rec *sim.Response, now time.Time, cfgIssuer string) map[string]bool {
 	V := map[string]bool{}
 	if rec.Version == nil || *rec.Version != "2.0" {
 		V["invalid:SAML version:Unsupported"] = true
 	}
-	if rec.Destination != nil && *rec.Destination != "" && *rec.Destination != ACS {
+	if rec.Destination != nil && *rec.Destination != "" && *rec.Destination != c03ACS {
 		V["invalid:Destination"] = true
 	}
 	if len(rec.Assertions) == 0 {
@@ -65,7 +73,7 @@ func ssoChecks(rec *sim.Response, now time.Time, cfgIssuer string) map[string]bo
 			V["missing:SubjectConfirmationData"] = true
 			continue
 		}
-		if cf.Recipient == nil || *cf.Recipient != ACS {
+		if cf.Recipient == nil || *cf.Recipient != c03ACS {
 			V["invalid:Recipient"] = true
 		}
 		if cf.NotOnOrAfter == nil || *cf.NotOnOrAfter == "" {
@@ -93,9 +101,7 @@ func injectSSOFault(r *rand.Rand, rec *sim.Response, now time.Time, f string) st
 		pos = r.IntN(len(rec.Assertions))
 		a = rec.Assertions[pos]
 	}
-	near := func(s string) string {
-		return pick(r, []string{s + "/", strings.ToUpper(s), s + " ", " " + s, s[:len(s)-1], strings.Replace(s, "https", "http", 1)})
-	}
+	near := func(s string) string { return NearVariant(r, s, SLO, SPIss, Audience, IdPSSO, c03Iss, c03ACS) }
 	needConf := func() *sim.SubjConf {
 		if a == nil || !a.HasSubject || len(a.Confs) == 0 {
 			return nil
@@ -112,7 +118,7 @@ func injectSSOFault(r *rand.Rand, rec *sim.Response, now time.Time, f string) st
 	case "dest-other":
 		rec.Destination = sim.S("https://other.example.test/acs")
 	case "dest-nearmiss":
-		rec.Destination = sim.S(near(ACS))
+		rec.Destination = sim.S(near(c03ACS))
 	case "dest-empty":
 		rec.Destination = sim.S("")
 	case "dest-absent":
@@ -125,7 +131,7 @@ func injectSSOFault(r *rand.Rand, rec *sim.Response, now time.Time, f string) st
 		rec.Issuer = sim.S("")
 	case "issuer-suffix-after-pi":
 		// the configured issuer, a processing instruction, then more text: the element's string value is the concatenation
-		rec.Issuer = sim.S(IdPIss + sim.PIMark + ".rogue.example")
+		rec.Issuer = sim.S(c03Iss + sim.PIMark + ".rogue.example")
 	case "second-status-bad":
 		rec.ExtraStatus = append(rec.ExtraStatus, []string{"urn:oasis:names:tc:SAML:2.0:status:Responder"})
 	case "status-absent":
@@ -151,7 +157,7 @@ func injectSSOFault(r *rand.Rand, rec *sim.Response, now time.Time, f string) st
 		case "a-issuer-empty":
 			a.Issuer = sim.S("")
 		case "a-issuer-suffix-after-pi":
-			a.Issuer = sim.S(IdPIss + sim.PIMark + ".rogue.example")
+			a.Issuer = sim.S(c03Iss + sim.PIMark + ".rogue.example")
 		case "subject-absent":
 			a.HasSubject = false
 		case "conf-absent":
@@ -177,7 +183,7 @@ func injectSSOFault(r *rand.Rand, rec *sim.Response, now time.Time, f string) st
 			case "recipient-other":
 				cf.Recipient = sim.S("https://other.example.test/acs")
 			case "recipient-nearmiss":
-				cf.Recipient = sim.S(near(ACS))
+				cf.Recipient = sim.S(near(c03ACS))
 			case "recipient-empty":
 				cf.Recipient = sim.S("")
 			case "nooa-absent":
@@ -210,7 +216,17 @@ func runC03(c *mon.Ctx) {
 		}
 		r := cs.Rand()
 		na := 1 + r.IntN(4)
-		rec := sim.GenuineResponse(w.Env, na)
+		c03ACS, c03Iss = ACS, IdPIss
+		if r.IntN(3) == 0 {
+			// configured values holding characters that list-, pattern- or URL-minded comparison code might interpret
+			c03ACS = c03OddACS[r.IntN(len(c03OddACS))]
+			if r.IntN(2) == 0 {
+				c03Iss = c03OddIss[r.IntN(len(c03OddIss))]
+			}
+		}
+		env := w.Env
+		env.ACS, env.IdPIssuer = c03ACS, c03Iss
+		rec := sim.GenuineResponse(env, na)
 		for i, a := range rec.Assertions {
 			a.ID = sim.S(fmt.Sprintf("_a%d", i))
 		}
@@ -223,7 +239,7 @@ func runC03(c *mon.Ctx) {
 		for i := 0; i < nf; i++ {
 			faults = append(faults, injectSSOFault(r, rec, now, c03Faults[(k+i*7)%len(c03Faults)]))
 		}
-		cfgIssuer := IdPIss
+		cfgIssuer := c03Iss
 		if r.IntN(4) == 0 {
 			cfgIssuer = ""
 		}
@@ -250,9 +266,10 @@ func runC03(c *mon.Ctx) {
 			cs.Note("%v", err)
 			continue
 		}
-		cs.Desc("na=%d faults=%v mode=%s cfgIssuer=%q", na, faults, mode, cfgIssuer)
+		cs.Desc("na=%d faults=%v mode=%s cfgIssuer=%q acs=%q", na, faults, mode, cfgIssuer, c03ACS)
 		cs.Input([]byte(doc))
 		sp, _, _ := pool.SPSource(k, now, signer)
+		sp.AssertionConsumerServiceURL = c03ACS
 		sp.IdentityProviderIssuer = cfgIssuer
 		sp.SkipSignatureValidation = mode == "skip"
 		enc := sim.Encode(doc, sim.RawLevel)
@@ -297,6 +314,7 @@ func runC03(c *mon.Ctx) {
 		cs.Sample(map[string]any{"V": keys(V), "error": fmt.Sprint(verr)})
 	}
 
+	c03ACS, c03Iss = ACS, IdPIss
 	// direct Validate calls on hand-built structs
 	nd := c.N(800, 30000)
 	for k := 0; k < nd; k++ {
